@@ -151,6 +151,42 @@ def _map_loop_shape(body):
     return apps, assigned
 
 
+def _search_loop_shape(body):
+    """`for x in seq: if cond(x): raise ...` - a universal check"""
+    if len(body) != 1 or not isinstance(body[0], ast.If) or body[0].orelse:
+        return False
+    b = body[0].body
+    return len(b) >= 1 and isinstance(b[-1], ast.Raise) and all(isinstance(x, (ast.Raise, ast.Expr)) for x in b)
+
+
+def _exec_search_loop(interp, node, seq, env):
+    """either some item satisfies the condition (the loop raises at the first such item) or none
+    does: decided once, with a skolem witness / an assumed universal fact"""
+    c = cur()
+    ifn = node.body[0]
+    snapshot = dict(env.vars)
+
+    def cond_at(i):
+        e2 = _child_env(interp, env)
+        e2.vars.update(snapshot)
+        interp.assign(node.target, seq.elem(i), e2)
+        t = interp.truth_term(interp.eval(ifn.test, e2))
+        return T.lift(t)
+
+    some = T.fresh("some_item_fails", T.BOOL)
+    w = T.fresh("w", T.INT)
+    c.axiom(T.implies(some, T.and_(T.le(0, w), T.lt(w, seq.n), cond_at(w))))
+    if c.decide(some, f"loop@{node.lineno}: some item satisfies the raising condition"):
+        interp.assign(node.target, seq.elem(w), env)
+        interp.exec_block(ifn.body, env)
+        return
+    c.assume_forall(seq.n, lambda i: T.not_(cond_at(i)))
+    try:
+        interp.assign(node.target, seq.elem(T.sub(seq.n, 1)), env)
+    except Exception:
+        pass
+
+
 def exec_symbolic_for(interp, node, seq, env):
     c = cur()
     if T.is_const(seq.n):
@@ -183,6 +219,8 @@ def exec_symbolic_for(interp, node, seq, env):
             return rule(interp, node, seq, env)
     if node.orelse:
         raise Unsupported("for/else over a symbolic sequence")
+    if _search_loop_shape(node.body):
+        return _exec_search_loop(interp, node, seq, env)
     shape = _map_loop_shape(node.body)
     if shape is None:
         raise Unsupported(f"loop over a symbolic sequence at line {node.lineno} is not a pure map and has no invariant")
